@@ -20,6 +20,7 @@ const (
 	lGroup0                 // {0}
 	lGroup1                 // {1}
 	lKey                    // {k}
+	lMixed                  // p{1}     (literal text and a lookup in one argument; may be quoted)
 	lCall
 )
 
@@ -29,7 +30,7 @@ type tree struct {
 	args []*tree
 }
 
-var leafKinds = []leafKind{lWord, lQuoted, lEmpty, lGroup0, lGroup1, lKey}
+var leafKinds = []leafKind{lWord, lQuoted, lEmpty, lGroup0, lGroup1, lKey, lMixed}
 
 // value is what "the tree dictates" (S2) on the recording context.
 func (t *tree) value() string {
@@ -46,6 +47,8 @@ func (t *tree) value() string {
 		return matchValue(1)
 	case lKey:
 		return keyValue("k")
+	case lMixed:
+		return "p" + matchValue(1)
 	}
 	parts := make([]string, len(t.args))
 	for i, a := range t.args {
@@ -68,6 +71,8 @@ func (t *tree) String() string {
 		return "{1}"
 	case lKey:
 		return "{k}"
+	case lMixed:
+		return "p{1}"
 	}
 	parts := make([]string, len(t.args))
 	for i, a := range t.args {
@@ -159,7 +164,7 @@ func (p *printer) arg(t *tree) string {
 		return `"b c"`
 	case lEmpty:
 		return `""`
-	case lGroup0, lGroup1, lKey:
+	case lGroup0, lGroup1, lKey, lMixed:
 		s := t.String()
 		if p.quoteChoice(vkQuoteRef, "quote-lookup") {
 			return `"` + s + `"`
